@@ -67,8 +67,8 @@ theorem height_applied_once (P : Params) (n : Node) (b : Block) (v : Int)
       obtain ⟨_, s1, h1, hs⟩ := M.bind_ok hs
       obtain ⟨_, s2, h2, hs⟩ := M.bind_ok hs
       have ok := primsOK_svGrow P b.height
-      have g1 : svGrow.r _ s1 := (burnZeroing_step _ b ok).ok h1
-      have g2 : svGrow.r s1 s2 := (syncBlock_step _ b _ ok).ok h2
+      have g1 : svGrow.r _ s1 := (burnZeroing_step _ b ok (fun _ => Step.guarded (fun _ _ hx => hx))).ok h1
+      have g2 : svGrow.r s1 s2 := (syncBlock_step _ b _ ok (fun _ => Step.guarded (fun _ _ hx => hx))).ok h2
       have hmem : (b.height, v) ∈ s2.syncVersions := g2 _ (g1 _ hrow)
       unfold markSynced M.guarded at hs
       have hany : s2.syncVersions.any (·.1 == b.height) = true :=
@@ -79,8 +79,8 @@ theorem height_applied_once (P : Params) (n : Node) (b : Block) (v : Int)
     obtain ⟨_, s1, h1, hs⟩ := M.bind_ok hs
     obtain ⟨_, s2, h2, hs⟩ := M.bind_ok hs
     have ok := primsOK_svGrow P b.height
-    have g1 : svGrow.r _ s1 := (burnZeroing_step _ b ok).ok h1
-    have g2 : svGrow.r s1 s2 := (syncBlock_step _ b _ ok).ok h2
+    have g1 : svGrow.r _ s1 := (burnZeroing_step _ b ok (fun _ => Step.guarded (fun _ _ hx => hx))).ok h1
+    have g2 : svGrow.r s1 s2 := (syncBlock_step _ b _ ok (fun _ => Step.guarded (fun _ _ hx => hx))).ok h2
     have hmem : (b.height, v) ∈ s2.syncVersions := g2 _ (g1 _ hrow)
     unfold markSynced M.guarded at hs
     have hany : s2.syncVersions.any (·.1 == b.height) = true :=
